@@ -63,8 +63,8 @@ TextKind(key) == CASE key = "alert" -> "text"
                    [] key = "aval" -> "atext"
                    [] OTHER -> "text"            \* label values
 
-Classes(tk) == CASE tk = "text"   -> {"one", "spaces", "special", "rune", "repeat", "escnl", "tab", "esctab"}
-                 [] tk = "atext"  -> {"one", "spaces", "special", "rune", "repeat", "escnl", "tmpl", "tmpll", "tab", "esctab"}
+Classes(tk) == CASE tk = "text"   -> {"one", "spaces", "special", "rune", "repeat", "escnl", "tab", "esctab", "escbs"}
+                 [] tk = "atext"  -> {"one", "spaces", "special", "rune", "repeat", "escnl", "tmpl", "tmpll", "tab", "esctab", "escbs"}
                  [] tk = "expr"   -> {"one", "spaces", "special", "rune", "repeat"}
                  [] tk = "metric" -> {"one", "repeat"}
                  [] tk = "dur"    -> {"one"}
@@ -95,6 +95,8 @@ Words(tk, cls, key) ==
            \* "%t" stands for one tab byte (2 characters, 1 byte: x = -1); esctab spells it `\t` inside double quotes
            [] cls = "tab"     -> <<[t |-> "x%ty", sq |-> "x%ty", dq |-> "x%ty", x |-> -1], Wd("z")>>
            [] cls = "esctab"  -> <<WdQ("x%ty", "x%ty", "x\\ty"), Wd("z")>>
+           \* an escaped backslash directly in front of an escape letter: the value holds `\t` and `\n` as two characters each
+           [] cls = "escbs"   -> <<WdQ("C:\\temp\\new", "C:\\temp\\new", "C:\\\\temp\\\\new"), Wd("z")>>
            [] cls = "tmpl"    -> <<Wd("{{"), Wd("$value"), Wd("}}"), Wd("ok")>>
            \* a label the base expr aggregates away: alerts/template reports it with a column range inside the value
            [] cls = "tmpll"   -> <<Wd("on"), Wd("{{"), Wd("$labels.instance"), Wd("}}"), Wd("gone")>>
@@ -382,7 +384,12 @@ RenderBase(lay) ==
 -----------------------------------------------------------------------------
 (* Wrappers: parent keys / sequence levels / siblings / documents / embedding                    *)
 LvDef == [seq |-> FALSE, key |-> "spec", step |-> 2, sibB |-> FALSE, sibA |-> FALSE, sl |-> FALSE]
-WrNone == [levels |-> <<>>, embed |-> FALSE, docB |-> FALSE, docA |-> FALSE]
+\* embed : the innermost key holds the document as a literal block scalar; embed2: so does the key above it
+\*         (a document inside a block scalar inside a document inside a block scalar)
+\* docE  : an EMPTY document in front of the document with the rules: "cmt" (`---`, comment, `---`), "bare" (`---`, `---`),
+\*         "null" (`--- ~`, `---`)
+\* mix   : the rule list gets one more item that is not a rule but holds a rule list of its own (`- mx:` + `- alert: SibM`)
+WrNone == [levels |-> <<>>, embed |-> FALSE, embed2 |-> FALSE, docB |-> FALSE, docA |-> FALSE, docE |-> "none", mix |-> FALSE]
 
 \* a sibling key at column c (0-based indentation): a scalar, or (sl) a bare rule list of its own with one rule
 SibLines(c, dash, key, name, sl) ==
@@ -401,7 +408,7 @@ WrapAcc(w, i, ind, acc) ==
            kl     == Cat3(FSp(IF lv.seq /\ lv.sibB THEN keycol ELSE ind),
                           F(IF lv.seq /\ ~lv.sibB THEN "- " ELSE ""),
                           \* `|+`: the embedded text keeps its trailing empty lines, so it is the unwrapped file byte for byte
-                          F(lv.key \o ":" \o (IF w.embed /\ i = Len(w.levels) THEN " |+" ELSE "")))
+                          F(lv.key \o ":" \o (IF (w.embed /\ i = Len(w.levels)) \/ (w.embed2 /\ i = Len(w.levels) - 1) THEN " |+" ELSE "")))
            sa     == IF lv.sibA THEN SibLines(keycol, FALSE, "sa", "SibA", lv.sl) ELSE <<>>
        IN WrapAcc(w, i + 1, keycol + lv.step,
                   [before |-> acc.before \o sb \o <<kl>>, after |-> sa \o acc.after, ind |-> 0,
@@ -409,7 +416,12 @@ WrapAcc(w, i, ind, acc) ==
 
 WrapParts(w) ==
   LET a == WrapAcc(w, 1, 0, [before |-> <<>>, after |-> <<>>, ind |-> 0, nB |-> 0, nA |-> 0]) IN
-  [before |-> (IF w.docB THEN <<F("x: 1"), F("---")>> ELSE <<>>) \o a.before,
+  [before |-> (IF w.docB THEN <<F("x: 1"), F("---")>> ELSE <<>>)
+              \o (CASE w.docE = "cmt"  -> <<F("---"), F("# note"), F("---")>>
+                    [] w.docE = "bare" -> <<F("---"), F("---")>>
+                    [] w.docE = "null" -> <<F("--- ~"), F("---")>>
+                    [] OTHER           -> <<>>)
+              \o a.before,
    after  |-> a.after \o (IF w.docA THEN <<F("---"), F("y: 2")>> ELSE <<>>),
    ind    |-> a.ind, nB |-> a.nB, nA |-> a.nA]
 
@@ -443,7 +455,11 @@ Render(lay) ==
       dC == w.ind
       body == [i \in DOMAIN b.lines |-> IF b.lines[i].t = "" /\ ~lay.wrap.embed THEN Empty
                                        ELSE Cat(FSp(dC), b.lines[i])]
-      all  == w.before \o body \o w.after
+      ri   == IF lay.base = "list" THEN 0 ELSE lay.gi + 2 + lay.rstep
+      mixl == IF lay.wrap.mix
+              THEN <<Cat(FSp(dC + ri), F("- mx:")), Cat(FSp(dC + ri), F("  - alert: SibM")), Cat(FSp(dC + ri), F("    expr: up"))>>
+              ELSE <<>>
+      all  == w.before \o body \o mixl \o w.after
       rs   == [i \in DOMAIN b.rules |-> ShiftRule(b.rules[i], dL, dC, lay.wrap.embed)]
   IN [lines |-> all,
       rules |-> IF lay.crlf THEN [i \in DOMAIN rs |-> CrlfRule(rs[i], all)] ELSE rs,
